@@ -152,8 +152,8 @@ chunk4!(c31_v4_full_mapped_1, V4_FULL_1, Q4::Mapped);
 chunk4!(c31_v4_full_mapped_2, V4_FULL_2, Q4::Mapped);
 const _: () = assert!(V4_FULL_CHUNKS == 3 && V6_FULL_CHUNKS == 5, "table chunk count changed: update the harness list");
 
-/// First 40 lists of the IPv6 quick table (empty list, one subnet with masks 0, 1, 3, 4, 5, 8,
-/// 16, 31, 32, 33, 48, 64, 96, 124, 125, 127, 128, sibling pairs for masks 1..=11) x every
+/// First 24 lists of the IPv6 quick table (empty list, one subnet with masks 0, 1, 3, 4, 5, 8,
+/// 16, 31, 32, 33, 48, 64, 96, 124, 125, 127, 128, sibling pairs for masks 1..=3) x every
 /// proper IPv6 address.
 #[kani::proof]
 #[kani::unwind(34)]
